@@ -747,6 +747,10 @@ where
             #[cfg(rs_store_verif)]
             crate::verif::pt("chloop.wait", 0, rx.vid, None, 0);
         }
+
+        // the channel is closed by unsubscribe or by the store shutting down: release the subscriber
+        subscriber.on_unsubscribe();
+
         #[cfg(rs_store_verif)]
         crate::verif::pt("chloop.exit", 0, rx.vid, None, 0);
 
